@@ -59,7 +59,11 @@ impl<T> ObservableState<T> {
         observed_version: &mut u64,
         cx: &Context<'_>,
     ) -> Poll<Option<()>> {
+        #[cfg(feature = "__verif")]
+        crate::verif_hooks::point("poll:enter");
         let mut metadata = self.metadata.write().unwrap();
+        #[cfg(feature = "__verif")]
+        crate::verif_hooks::point("poll:locked");
 
         if metadata.version == 0 {
             Poll::Ready(None)
@@ -68,6 +72,8 @@ impl<T> ObservableState<T> {
             Poll::Ready(Some(()))
         } else {
             metadata.wakers.push(cx.waker().clone());
+            #[cfg(feature = "__verif")]
+            crate::verif_hooks::point("poll:registered");
             Poll::Pending
         }
     }
@@ -113,13 +119,19 @@ impl<T> ObservableState<T> {
 
     /// "Close" the state – indicate that no further updates will happen.
     pub(crate) fn close(&self) {
+        #[cfg(feature = "__verif")]
+        crate::verif_hooks::point("close:enter");
         let mut metadata = self.metadata.write().unwrap();
+        #[cfg(feature = "__verif")]
+        crate::verif_hooks::point("close:locked");
         metadata.version = 0;
         // Clear the backing buffer for the wakers, no new ones will be added.
         wake(mem::take(&mut metadata.wakers));
     }
 
     fn incr_version_and_wake(&mut self) {
+        #[cfg(feature = "__verif")]
+        crate::verif_hooks::point("update:locked");
         let metadata = self.metadata.get_mut().unwrap();
         metadata.version += 1;
         wake(metadata.wakers.drain(..));
